@@ -935,6 +935,76 @@ func checkInitGenesisCallers(p *Prog, r *Report, clause, mod string) {
 		}
 	}
 	r.Floor("callers-of-"+mod+".InitGenesis", n, 1)
+	checkModuleGenesisGlue(p, r, kp, mod)
+}
+
+// checkModuleGenesisGlue: the AppModule methods between the JSON file and the module's import/export add nothing of their own —
+// AppModule.InitGenesis hands the decoded state to the import on every path that returns (no "nothing to import" shortcut), and
+// neither method assigns to a field, element or map entry of the state it passes on (an export that blanks tombstones, an import
+// that drops a list).
+func checkModuleGenesisGlue(p *Prog, r *Report, kp func(string, string) string, mod string) {
+	am := p.Named(Rel(mod), "AppModule")
+	if am == nil {
+		return
+	}
+	writesThroughState := func(fn *ssa.Function) (string, bool) {
+		for _, b := range fn.Blocks {
+			for _, in := range b.Instrs {
+				switch x := in.(type) {
+				case *ssa.MapUpdate:
+					return p.Pos(x.Pos()), true
+				case *ssa.Store:
+					switch x.Addr.(type) {
+					case *ssa.FieldAddr, *ssa.IndexAddr:
+						return p.Pos(x.Pos()), true
+					}
+				}
+			}
+		}
+		return "", false
+	}
+	if ig := p.MethodOf(am, "InitGenesis"); ig != nil && ig.Blocks != nil {
+		inner := p.Func(Rel(mod), "InitGenesis")
+		var call ssa.Instruction
+		for _, cs := range callSites(ig) {
+			if cs.Callee != nil && inner != nil && (resolveBound(cs.Callee) == inner || p.delegateOf(resolveBound(cs.Callee)) == inner) {
+				call = cs.Instr.(ssa.Instruction)
+			}
+		}
+		if call == nil {
+			// the import may sit behind a helper of the module: any module callee that reaches it
+			for _, cs := range callSites(ig) {
+				if cs.Callee != nil && InModule(cs.Callee) && inner != nil {
+					if p.ReachFrom([]*ssa.Function{cs.Callee}, func(f *ssa.Function) bool { return InModule(f) }).Has(inner) {
+						call = cs.Instr.(ssa.Instruction)
+					}
+				}
+			}
+		}
+		if call != nil {
+			ok := true
+			at := ""
+			for _, ret := range returnsOf(ig) {
+				if !call.Block().Dominates(ret.Block()) {
+					ok, at = false, p.Pos(ret.Pos())
+				}
+			}
+			r.Check(ok, kp("MUSTCALL", mod+".AppModule.InitGenesis→InitGenesis"), "the module's InitGenesis hands the decoded genesis state to the import on every path that returns", p.FnPos(ig),
+				"the import call dominates every return", "AppModule.InitGenesis can return (at "+at+") without having run the import: a genesis file whose state it judges empty is skipped whole — the entries it does hold are gone after the restart")
+		}
+		if at, bad := writesThroughState(ig); bad {
+			r.Fail(kp("ORIGIN", mod+".AppModule.InitGenesis#state-passed-on-unchanged"), "the module glue passes the genesis state on as it was decoded", at, "AppModule.InitGenesis assigns to a field, element or map entry before the import: what is imported is not what the file says")
+		} else {
+			r.OK(kp("ORIGIN", mod+".AppModule.InitGenesis#state-passed-on-unchanged"), "the module glue passes the genesis state on as it was decoded", p.FnPos(ig), "no field, element or map assignment in AppModule.InitGenesis")
+		}
+	}
+	if eg := p.MethodOf(am, "ExportGenesis"); eg != nil && eg.Blocks != nil {
+		if at, bad := writesThroughState(eg); bad {
+			r.Fail(kp("ORIGIN", mod+".AppModule.ExportGenesis#state-passed-on-unchanged"), "the module glue marshals the exported state as the export built it", at, "AppModule.ExportGenesis assigns to a field, element or map entry of the exported state before marshalling it: the file does not say what the stores hold (a blanked tombstone reads as an absent entry on import)")
+		} else {
+			r.OK(kp("ORIGIN", mod+".AppModule.ExportGenesis#state-passed-on-unchanged"), "the module glue marshals the exported state as the export built it", p.FnPos(eg), "no field, element or map assignment in AppModule.ExportGenesis")
+		}
+	}
 }
 
 // soleArgumentOfParam: id names a parameter of a function declared in files; when every call of that function in files passes
